@@ -22,7 +22,7 @@ Proof.
   destruct (existsb (Z.eqb i) (l_fired s)); [apply IH; exact H|].
   destruct (step1 (l_f s) r1) as [x|] eqn:S1; [|discriminate].
   rewrite (step_agree _ _ _ _ Hr S1).
-  destruct x as [f'| |k]; [apply IH; exact H|apply IH; exact H|exact H].
+  destruct x as [f'| |k f']; [apply IH; exact H|apply IH; exact H|exact H].
 Qed.
 
 Lemma cycles_sim : forall fuel rs1 rs2, rel_rules rs1 rs2 -> forall s n res,
